@@ -104,6 +104,14 @@ CHECKS = {
              "not depend on the previous configuration of the process (2-run histories). What DuckDB stores/rounds/sums under the setting is outside.",
         note="Stubs: os.getenv/os.environ.get return the symbolic values; error-message formatting skipped. Trusted: CrossHair, transcription of the documented ranges.",
         ref="3 C30"),
+    "C19": dict(technique="SMT (z3) over a character-level encoding of the real vtl_period_normalize macro, the real loader patterns compiled to automata and the statement sequence recorded from the real _validate_loaded_table; witnesses replayed through run()",
+        engine="sqlsmt", ref="3 C19", category="model_checking",
+        note="Trusted: vt/sqlsmt/strmac.py (self-checked against real DuckDB), hand transcription of the documented formats, interpretation of the four SQL statement shapes the validation flow emits. "
+             "Integer/Number/Boolean/String/Date cell parsing, CSV/Parquet and characters outside the alphabet are outside (DuckDB C++ kernels).",
+        text="Partial (temporal cells + table-level checks of the DuckDB loader). For every Time_Period cell of length 4-10 over [0-9ASQMWDasqmwd -] z3 decides, per class of cell (spaces, lower case, "
+             "undocumented layout, calendar-invalid number) and per outcome of the normalisation (nulled, read as each period shape), whether the loader accepts it - 224 complete queries; every documented "
+             "spelling of every valid period (year 1000-9999) is accepted; Duration and Time cells likewise; for 2-datapoint tables with an Integer and a Time_Period identifier in any two documented "
+             "layouts the recorded validate flow rejects exactly the duplicate keys; NOT NULL constraints are complete over role x nullable."),
     "C21": dict(technique="SMT (z3) over a character-level encoding of the real SQL macros (vtl_period_normalize, vtl_period_to_*) and the real TIME_PERIOD_PATTERN compiled to an automaton; witnesses replayed on real DuckDB / run()",
         engine="sqlsmt", ref="3 C21", category="model_checking",
         note="Trusted: vt/sqlsmt/strmac.py string semantics on the modelled alphabet (self-checked against real DuckDB on every run), cal.py, hand transcription of the two documented format tables, z3. "
